@@ -279,7 +279,8 @@ def value_atoms(draw: t.Any, min_size: int = 0, max_size: int = 8) -> t.Tuple[st
         elif k == "utf8":
             ch = draw(st.one_of(st.sampled_from([0x80, 0xE9, 0x7FF, 0x800, 0x20AC, 0xFFFD, 0x10000, 0x1F600, 0x10FFFF]).map(chr),
                                 st.characters(min_codepoint=0x80, exclude_categories=["Cs"]),
-                                st.sampled_from(gens.NORMALISATION_SENSITIVE)))
+                                st.sampled_from(gens.NORMALISATION_SENSITIVE),
+                                st.sampled_from([c for c in gens.BOUNDARY_CHARS if ord(c) >= 0x80])))
             text.append(ch)
             out.extend(ch.encode("utf-8"))
             stats["utf8"] += 1
